@@ -31,6 +31,9 @@ SHAPES = {
     # names that an over-eager normalisation of -t / path values would change or confuse: a leading dot
     # next to the same name without it, a comma, a trailing dot
     "odd_names": ("odd", None),
+    # dependencies that exist only through paths the depended-upon target ignores (`ignores` concern change
+    # detection, not ordering): app uses lib/docs which lib ignores; svc/plugin is nested in svc which ignores it
+    "ignored_edges": ("ign", None),
 }
 
 
@@ -65,6 +68,8 @@ def shape_targets(shape):
     if n == "odd":
         # (no space: -t takes a space-delimited list, so a path with a space cannot be named there)
         return [{"path": ".ci"}, {"path": "ci", "uses": [".ci"]}, {"path": "my,target"}, {"path": "x.", "uses": ["my,target"]}]
+    if n == "ign":
+        return [{"path": "lib", "ignores": ["lib/docs"]}, {"path": "app", "uses": ["lib/docs"]}, {"path": "svc", "ignores": ["svc/plugin"]}, {"path": "svc/plugin"}]
     if n == "nested":
         # p, p/c nested in it, q uses a file inside p/c
         return [{"path": "p"}, {"path": "p/c"}, {"path": "q", "uses": ["p/c/f.txt"]}]
@@ -804,6 +809,77 @@ def c06e_task(desc):
         s.cleanup()
 
 
+def c06f_modes(tier):
+    every = list(range(0o1000))
+    if os.geteuid() != 0:
+        # an unprivileged user can only start a file whose owner bits allow it, and /bin/sh has to read it
+        every = [m for m in every if m & 0o400 and (bool(m & 0o100) == bool(m & 0o111))]
+    if tier == "quick":
+        pick = {0o755, 0o644, 0o700, 0o750, 0o550, 0o510, 0o500, 0o600, 0o664, 0o666, 0o444, 0o440, 0o400, 0o100, 0o010, 0o001,
+                0o111, 0o711, 0o744, 0o775, 0o777, 0o640, 0o660, 0o222, 0o200, 0o020, 0o002, 0o555, 0o505, 0o540, 0o504, 0o410,
+                0o401, 0o610, 0o601, 0o454, 0o445, 0o554, 0o545, 0o770, 0o707, 0o077, 0o070, 0o007, 0o766, 0o676, 0o667, 0o000}
+        every = [m for m in every if m in pick]
+    # files with an execute bit: many per run (nothing fails); files without any: one per run next to an
+    # ordinary sibling (after the first failure the members of a group not yet looked at are `skipped`,
+    # which would hide the others)
+    xs = [m for m in every if m & 0o111]
+    return [xs[i:i + 64] for i in range(0, len(xs), 64)] + [[0o755, m] for m in every if not m & 0o111]
+
+
+def c06f_task(desc):
+    """Every permission mode of a command file: the file is started exactly when it carries an execute
+    bit; a file without any is `not_executable`, fails the run with exit 1 and is never started. One
+    run per chunk of modes, one flat target per mode, plus a dependent target that must be skipped
+    exactly when the chunk contains a mode without an execute bit."""
+    modes = desc["modes"]
+    ts = [{"path": "m%03o" % m} for m in modes] + [{"path": "post", "uses": ["m%03o" % m for m in modes]}]
+    s = sc.Scratch("c06f")
+    try:
+        r = sc.Repo(s, "r", ts, commands={"post": {"build": "x"}}, init_git=False)
+        for m in modes:
+            f = r.path("m%03o/monorail/cmd/build.sh" % m)
+            os.makedirs(os.path.dirname(f), exist_ok=True)
+            with open(f, "w") as fh:
+                fh.write("#!/bin/sh\necho started > started.txt\nexit 0\n")
+            os.chmod(f, m)
+        res = r.mr("run", "-c", "build", env=r.trace_env())
+        doc = res.json()
+        viol = []
+        anynox = any(not (m & 0o111) for m in modes)
+        if doc is None:
+            viol.append(("no-result-document", "command files with modes %s: exit %s %s" % (" ".join("%03o" % m for m in modes), res.code, res.err[:200])))
+        else:
+            st = {t: v for cr in doc["results"] for g in cr["target_groups"] for t, v in g.items()}
+            for m in modes:
+                name = "m%03o" % m
+                started = os.path.exists(r.path(name + "/started.txt"))
+                v = st.get(name) or {}
+                if m & 0o111:
+                    ok = v.get("status") == "success" and v.get("code") == 0 and started
+                    if anynox and v.get("status") == "skipped" and not started:
+                        ok = True   # a member of the failing group that was not looked at any more
+                    if not ok:
+                        viol.append(("status-wrong", "a command file with mode %03o has an execute bit and exits 0: reported %s, started=%s" % (m, v, started)))
+                else:
+                    if v.get("status") != "not_executable" or started:
+                        viol.append(("status-wrong", "a command file with mode %03o has no execute bit: reported %s, started=%s" % (m, v, started)))
+            pv = st.get("post") or {}
+            pstarted = any(r.target_pair(x)[0] == "post" for x in r.traces())
+            if bool(doc.get("failed")) != anynox or res.code != (1 if anynox else 0):
+                viol.append(("failed-flag-wrong", "modes %s: failed=%s, exit status %s" % (" ".join("%03o" % m for m in modes), doc.get("failed"), res.code)))
+            if anynox and (pv.get("status") != "skipped" or pstarted):
+                viol.append(("later-group-not-skipped", "the dependent target is reported %s, started=%s" % (pv, pstarted)))
+            if not anynox and (pv.get("status") != "success" or not pstarted):
+                viol.append(("status-wrong", "the dependent target is reported %s, started=%s in a run without failure" % (pv, pstarted)))
+        return {"evaluations": 1, "nontrivial": 1, "states": len(modes), "transitions": len(modes), "unrealised": 0,
+                "violations": [{"sig": sig, "detail": d, "rank": 660, "case": {"c06f": desc}} for sig, d in viol[:6]],
+                "sample": {"permission_modes": len(modes)}}
+    except common.EngineError as e:
+        return {"engine_error": str(e)}
+    finally:
+        s.cleanup()
+
+
 def c06c_task(desc):
     """C06 under delays of the compressor threads (guarded point compressor.loop): the scenario of
     p_c08.order_task judged for the failed flag, exit status, statuses and skipping."""
@@ -868,6 +944,13 @@ def c05_scenarios(tier):
                         (["-s", "seq", "-c", "test"], ["build", "test"], {"seq": ["build"]})]
             if tier == "quick":
                 cmdlists = cmdlists[:2] if pi else cmdlists
+            if pi == 0:
+                # a command that is asked for more than once is run that many times: named again after a
+                # sequence that contains it, named twice, or through a sequence given twice
+                cmdlists = cmdlists + [(["-s", "seq2", "-c", "build"], ["build", "test", "build"], {"seq2": ["build", "test"]}),
+                                       (["-c", "build", "build"], ["build", "build"], None)]
+                if tier != "quick":
+                    cmdlists.append((["-s", "seq2", "seq2"], ["build", "test", "build", "test"], {"seq2": ["build", "test"]}))
             for args, cmds, seqs in cmdlists:
                 sel = [("all", None, None, None, False)]
                 subsets = []
@@ -1007,16 +1090,17 @@ def c05_task(desc):
         if doc is None:
             viol.append(("no-result-document", "exit %s stderr %s" % (res.code, res.err[:300])))
         else:
-            planned = {(c, t) for c in desc["commands"] for t in selected}
+            planned_l = [(c, t) for c in desc["commands"] for t in selected]   # a command may be planned more than once
+            planned = set(planned_l)
             got = []
             for cr in doc["results"]:
                 for grp in cr["target_groups"]:
                     for t in grp:
                         got.append((cr["command"], t))
-            if sorted(got) != sorted(planned):
+            if sorted(got) != sorted(planned_l):
                 extra = sorted(set(got) - planned)
-                missing = sorted(planned - set(got))
-                dup = sorted({x for x in got if got.count(x) > 1})
+                missing = sorted(x for x in planned if got.count(x) < planned_l.count(x))
+                dup = sorted({x for x in got if got.count(x) > planned_l.count(x)})
                 viol.append(("wrong-coverage", "result pairs != planned pairs: extra %s missing %s duplicated %s" % (extra, missing, dup)))
             if [cr["command"] for cr in doc["results"]] != desc["commands"]:
                 viol.append(("wrong-commands", "result commands %s, expected %s" % ([cr["command"] for cr in doc["results"]], desc["commands"])))
@@ -1044,12 +1128,13 @@ def c05_task(desc):
                     for t, v in grp.items():
                         k = started.get((cr["command"], t), 0)
                         m = modes.get((t, cr["command"]))
-                        if k > 1:
-                            viol.append(("started-twice", "%s:%s started %d times" % (cr["command"], t, k)))
+                        mult = desc["commands"].count(cr["command"])
+                        if k > mult:
+                            viol.append(("started-twice", "%s:%s started %d times (planned %d times)" % (cr["command"], t, k, mult)))
                         is_x = bool(m) and m.startswith("x")
                         if not is_x and k > 0:
                             viol.append(("started-undefined", "%s:%s is %s but a process was started" % (cr["command"], t, m)))
-                        if is_x and not failed_before and v["status"] != "skipped" and k != 1:
+                        if is_x and not failed_before and v["status"] != "skipped" and k != mult and not (mult > 1 and doc.get("failed")):
                             viol.append(("not-started", "%s:%s defined and nothing failed earlier, started %d times (status %s)" % (cr["command"], t, k, v["status"])))
                     if any(v["status"] in ("error", "not_executable") for v in grp.values()):
                         failed_before = True
@@ -1188,6 +1273,8 @@ def _worker(task):
             return c06d_task(desc)
         if kind == "c06e":
             return c06e_task(desc)
+        if kind == "c06f":
+            return c06f_task(desc)
     except common.EngineError as e:
         return {"engine_error": "%s: %s" % (kind, e)}
     except Exception:
@@ -1201,7 +1288,7 @@ def run_tasks(tasks, workers=None):
 RULES = {
     "C04": "(thorough adds every labelled DAG on 2-4 nodes, single command, every release order) scenarios: 12 dependency shapes x selection modes (all targets / changed subset after a checkpoint / -t with --deps) x command lists (build; build test; sequence(build,test) then lint); every child blocks until released; stateless DFS over every release order (single-command scenarios: all orders; multi-command: all schedules with <= max_dev non-default choices) plus the eager deviation for every single child; monitor: at each arrival every dependency in the run and every executable of every earlier command has exited; evaluations = executions (complete runs); non-trivial = scenarios with more than one schedule",
     "C16": "(plus groups whose members all resolve the command to one shared executable, through definitions or a shared commands.path) (plus group sizes 2..13 with a `log tail` listener attached, three filter variants) (plus chains of wide groups, e.g. 30/30/10 and 40/40 under 1-2 commands, so that many tasks precede the group under test) group sizes x position of the group in the plan (only, first, middle, last) x 1-2 commands; no member is released before every member of the group has arrived (each member waits for all the others to start); oracle: every member arrives, then the run exits 0 with all success entries; non-trivial = scenarios where the full group rendezvoused for every command",
-    "C06": "part B (internal orderings): plans with a group of n in {1,2,3} (thorough 4) followed by a dependent target, all commands succeed, points group.pre_shutdown:<i> and compressor.gone:<x> active; the free run, every single constraint `compressor.gone:x before group.pre_shutdown:i` per group and pairs of constraints (hit b is held until hit a was seen); oracle exit 0, failed=false, all success, stored logs complete; plus the compressor-delay scenarios of C08 (guarded point compressor.loop: free / held until the group is joined / until the first shutdown request / one request behind) x no failure and each member failing last, judged for failed flag, exit status, statuses and skipping of the dependent group; plus runs without any failure in which one member leaves a helper process behind that holds its output streams open (0.6 - 2.5 s) while a sibling is still running; plus an earlier command taking away / granting the execute bit of a later target's command file during the run. part A: plans = dependency shapes with two commands; fault assignments: every single fault (exit codes, death by signal, missing x bit, undefined with/without --fail-on-undefined) at every (command,target) position, pairs of faults within a command, and no fault; every exit code 1..255 at one position of the fork shape (default schedule); a subset again with an earlier failed / successful run's records on disk and with a listener attached; for each every release order of the groups (<=3 members); oracle: failed flag, exit status, skipped/not-started later groups and commands, status truthfulness; evaluations = executions",
+    "C06": "part B (internal orderings): plans with a group of n in {1,2,3} (thorough 4) followed by a dependent target, all commands succeed, points group.pre_shutdown:<i> and compressor.gone:<x> active; the free run, every single constraint `compressor.gone:x before group.pre_shutdown:i` per group and pairs of constraints (hit b is held until hit a was seen); oracle exit 0, failed=false, all success, stored logs complete; plus the compressor-delay scenarios of C08 (guarded point compressor.loop: free / held until the group is joined / until the first shutdown request / one request behind) x no failure and each member failing last, judged for failed flag, exit status, statuses and skipping of the dependent group; plus runs without any failure in which one member leaves a helper process behind that holds its output streams open (0.6 - 2.5 s) while a sibling is still running; plus an earlier command taking away / granting the execute bit of a later target's command file during the run; plus command files of every permission mode 0000-0777 (quick: 48 of them), started exactly when they carry an execute bit. part A: plans = dependency shapes with two commands; fault assignments: every single fault (exit codes, death by signal, missing x bit, undefined with/without --fail-on-undefined) at every (command,target) position, pairs of faults within a command, and no fault; every exit code 1..255 at one position of the fork shape (default schedule); a subset again with an earlier failed / successful run's records on disk and with a listener attached; for each every release order of the groups (<=3 members); oracle: failed flag, exit status, skipped/not-started later groups and commands, status truthfulness; evaluations = executions",
     "C05": "(plus variants in which some targets define the command through commands.definitions with explicit paths and the declaration order is reversed) dependency shapes x command-definition patterns x command lists x selection modes (no targets without checkpoint; checkpoint + every changed subset; -t S; -t S --deps; the -t forms also with a checkpoint present) in trace mode; oracle: result document pairs == commands x selected targets exactly once, groups equal analyze --target-groups taken immediately before (or singletons / a valid layering of the closure), executable starts at most once, exactly once iff defined and nothing failed earlier, never when undefined; evaluations = runs",
 }
 
@@ -1216,11 +1303,14 @@ def run(prop, tier):
         tasks = (c06b_scenarios(tier) if "B" in part else []) + (tasks if "A" in part else []) + \
             ([("c06c", d, {}) for d in p_c08.order_scenarios(tier)] if "B" in part else []) + \
             ([("c06d", {"n": n_, "linger_ms": lm, "sibling_ms": sm}, {}) for n_ in (2, 3) for (lm, sm) in ((1500, 700), (600, 1200), (2500, 300))] if "B" in part else []) + \
-            ([("c06e", {"direction": d_}, {}) for d_ in ("revoke", "grant")] if "B" in part else [])
+            ([("c06e", {"direction": d_}, {}) for d_ in ("revoke", "grant")] if "B" in part else []) + \
+            ([("c06f", {"modes": ms}, {}) for ms in c06f_modes(tier)] if "B" in part else [])
     results = run_tasks(tasks)
     errs = [r["engine_error"] for r in results if r and "engine_error" in r]
-    if errs:
+    results = [r for r in results if r and "engine_error" not in r]
+    if errs and not any(r["violations"] for r in results):
         raise common.EngineError("; ".join(errs[:3]))
+    # (a scenario whose preparation failed says nothing; a violation observed in another scenario stands)
     agg = {"evaluations": 0, "distinct_nontrivial": 0, "states": 0, "transitions": 0, "violations": [], "samples": [],
            "rule": RULES[prop], "exhaustive": True, "scenarios": len(tasks), "stalls": 0}
     docs = set()
@@ -1238,6 +1328,7 @@ def run(prop, tier):
         if len(agg["samples"]) < 5 and r.get("sample"):
             agg["samples"].append(r["sample"])
     agg["distinct_result_documents"] = len(docs)
+    agg["scenarios_not_prepared"] = len(errs)
     agg["traces_validated_against_impl"] = agg["evaluations"]
     agg["bounds"] = {"tier": tier}
     if prop == "C05":
@@ -1284,6 +1375,8 @@ def replay(prop, path):
         r = c06d_task(case["c06d"])
     elif "c06e" in case:
         r = c06e_task(case["c06e"])
+    elif "c06f" in case:
+        r = c06f_task(case["c06f"])
     elif "c05" in case:
         r = c05_task(case["c05"])
     else:
